@@ -6,6 +6,7 @@ package c13
 // cheaply): strings default to "", trees to ["nil",""], lists to [].
 
 import (
+	"fmt"
 	"regexp"
 	"runtime"
 	"strings"
@@ -18,6 +19,23 @@ import (
 )
 
 var nilTree = T{"nil", ""}
+
+var (
+	apiOnce sync.Once
+	apiW    *apiWorld
+)
+
+// theAPI: one task store service stack per driver process.
+func theAPI() *apiWorld {
+	apiOnce.Do(func() {
+		w, err := openAPI()
+		if err != nil {
+			rt.Fatalf("task store service: %v", err)
+		}
+		apiW = w
+	})
+	return apiW
+}
 
 type outcome struct {
 	Tag  string // appended to every signature: the catalogue records WHICH item deviates HOW
@@ -252,11 +270,13 @@ func evalScript(it item) *outcome {
 	n0, e := parse(it.Src)
 	if e != "" {
 		o.Skip = true
+		o.Note = append(o.Note, "skipped: "+e)
 		return o
 	}
 	p0 := mkPipe(it.Src, it.Edge, it.Vars)
 	if p0.Err != "" {
 		o.Skip = true
+		o.Note = append(o.Note, "skipped: "+p0.Err)
 		return o
 	}
 	// pipeline JSON is taken from a second, separately created pipeline: Marshal must not
@@ -336,6 +356,14 @@ func evalScript(it item) *outcome {
 					o.dev("fmt:json", firstDiff(p0.JSON, p1.JSON))
 				}
 			}
+		}
+	}
+
+	// ---- the script as the HTTP API of the task store returns it
+	ln["api"] = theAPI().apiStage(it)
+	if a := ln["api"].(rt.M); a["code"] == 200 {
+		if S(a["t"].(T)) != S(t0) || S(a["lt"].(T)) != S(t0) || a["raw"] != true {
+			o.dev("api:script", fmt.Sprint(a["ferr"]))
 		}
 	}
 
